@@ -45,7 +45,7 @@ def _chains(rng, tags):
 class C33(Property):
     pid = "C33"
     title = "Tag ordering and tag selection follow numeric component order"
-    lean_targets = ["SFV.Props.C33"]
+    lean_targets = ["SFV.Props.C33", "SFV.Model.Proto"]
     props_files = ["SFV/Props/C33.lean"]
     drivers = ["Drivers/C33.lean"]
     translators = [tagguards.generate]
